@@ -55,7 +55,7 @@ def api_level(rep, tier_, rng):
                         import math
                         bitprec = int((nd + 3) * math.log(10, 2)) + 10
                         rep.violation("nstr(x, %d) is not a nearest %d-digit decimal" % (nd, nd),
-                                      {"fn": "nstr", "x": list(t), "n": nd, "prec": prec, "out": s[:60], "regime": "bc>bitprec" if t[3] > bitprec else "bc<=bitprec"})
+                                      {"fn": "nstr", "x": list(t), "n": nd, "prec": prec, "out": s[:60], "regime": strcases.tostr_regime(t, bitprec)})
             s = str(x); checked += 1
             try:
                 float(s); Decimal(s)
@@ -76,7 +76,7 @@ def run(rep, tier_, rng):
         d = orig_replay(self)
         if self.exact is not None and self.exact[0] == "tostr":
             import math
-            d["regime"] = "bc>bitprec" if self.exact[1][3] > int(self.exact[3] * math.log(10, 2)) + 10 else "bc<=bitprec"
+            d["regime"] = strcases.tostr_regime(self.exact[1], int(self.exact[3] * math.log(10, 2)) + 10)
         return d
     mpfcases.Case.replay = replay_with_regime
     try:
